@@ -106,6 +106,12 @@ def replay_lifecycle(rep, prop="C02"):
                 # in particular a completed operator never changes state again
                 extra1 = p.new_operator(None)
                 extra2 = p.new_operator([ops[0]])
+                # ... and neither may a repeated delivery of the same pipeline (the arrival is recorded once; a second attempt is refused or ignored)
+                try:
+                    p.runtime_status().record_arrival(0)
+                    p.runtime_status().record_arrival(5)
+                except Exception:  # noqa: BLE001
+                    pass
                 got_c = tuple(p.runtime_status().operator_states[o].value for o in ops)
                 if got_c != b:
                     rep.violation("C02.CompletedFinal.grow", dict(det, after_growth=got_c), replay=rp, sig={"clause": "C02.CompletedFinal.grow"})
